@@ -350,6 +350,27 @@ def screen_config(cfg: Tuple[int, str]) -> Dict[str, Any]:
                     items.append((to_z3(scr.pixel_indices[k]) == (to_z3(pix[k]) & mask), f'{tag}: raw pixel {k}'))
                 E.prove_all(items)
                 E.witness('screen:raw-frame-presented', True)
+            elif scen == 'reinit-raw':
+                # two init_screen commands with different sizes, a raw frame after each: framing must follow the CURRENT size
+                w1, h1, w2, h2 = (sym_int(n, 1, 2) for n in ('W1', 'H1', 'W2', 'H2'))
+                for b in [1, w1, 0, h1, 0, 8, 0, 0]:
+                    scr._handle_byte(b)
+                n1 = int_of(w1) * int_of(h1)
+                pix1 = [byte(f'PA{k}') for k in range(n1)]
+                for b in [5] + pix1:
+                    scr._handle_byte(b)
+                for b in [1, w2, 0, h2, 0, 8, 0, 0]:
+                    scr._handle_byte(b)
+                n2 = int_of(w2) * int_of(h2)
+                pix2 = [byte(f'PB{k}') for k in range(n2)]
+                for b in [5] + pix2:
+                    scr._handle_byte(b)
+                items = [(z3.BoolVal(len(frames) == 2 and len(scr._command_buffer) == 0 and len(scr.pixel_indices) == n2),
+                          f'{tag}: each raw frame consumes exactly the current width*height bytes (two frames presented)')]
+                for k in range(min(n2, len(scr.pixel_indices))):
+                    items.append((to_z3(scr.pixel_indices[k]) == to_z3(pix2[k]), f'{tag}: pixel {k} of the second frame'))
+                E.prove_all(items)
+                E.witness('screen:reinit', z3.BoolVal(n1 != n2))
             elif scen == 'unknown-command':
                 c = byte('CMD')
                 assume(z3.Or(to_z3(c) == 0, to_z3(c) > 5))
@@ -373,6 +394,8 @@ def screen_config(cfg: Tuple[int, str]) -> Dict[str, Any]:
             elif scen in ('raw', 'raw-unattached'):
                 bad = z3.Not(z3.And(z3.Or(to_z3(bpp) == 4, to_z3(bpp) == 8), to_z3(width) != 0, to_z3(height) != 0))
                 E.prove(bad, f'{tag}: device error only for a bad init')
+            elif scen == 'reinit-raw':
+                E.prove(z3.BoolVal(False), f'{tag}: a valid stream (two inits, two raw frames) is rejected with a device error')
 
     t0 = time.time()
     incon: List[str] = []
@@ -472,6 +495,14 @@ def replay_screen(case: Dict[str, Any]) -> Dict[str, Any]:
                 what.append('a bad init_screen was accepted')
             elif list(scr.pixel_indices) != [p & mask for p in pix] or scr.frame_count != 1 or scr._command_buffer:
                 what.append(f'pixels {scr.pixel_indices} frames {scr.frame_count} documented {[p & mask for p in pix]}')
+        elif scen == 'reinit-raw':
+            w1, h1, w2, h2 = (g(n, 1) for n in ('W1', 'H1', 'W2', 'H2'))
+            pa = [g(f'PA{k}') for k in range(w1 * h1)]
+            pb = [g(f'PB{k}') for k in range(w2 * h2)]
+            for b in [1, w1, 0, h1, 0, 8, 0, 0, 5] + pa + [1, w2, 0, h2, 0, 8, 0, 0, 5] + pb:
+                scr._handle_byte(b)
+            if scr.frame_count != 2 or list(scr.pixel_indices) != pb or scr._command_buffer:
+                what.append(f'frames {scr.frame_count}, pixels {scr.pixel_indices}, pending bytes {scr._command_buffer}; documented 2 frames, pixels {pb}, nothing pending')
         elif scen == 'unknown-command':
             scr._handle_byte(g('CMD'))
             what.append(f"unknown command {g('CMD')} accepted")
@@ -487,6 +518,8 @@ def replay_screen(case: Dict[str, Any]) -> Dict[str, Any]:
             what.append(f'valid rectangle rejected: {err}')
         if scen in ('raw', 'raw-unattached') and g('BPP') in (4, 8) and g('WID') and g('HEI'):
             what.append(f'valid raw frame rejected: {err}')
+        if scen == 'reinit-raw':
+            what.append(f'valid stream (two inits, two raw frames) rejected: {err}')
     except Exception as e:  # noqa: BLE001
         what.append(f'{type(e).__name__}: {e}')
     return {'differs': bool(what), 'what': '; '.join(what) or 'as documented', 'device_error': err}
@@ -518,7 +551,8 @@ def run(report: Report, tier: str, only: Optional[str] = None) -> None:
     report.bounds.update({'device_memory': 'read, program op, read / write (inside a segment), program op, read - all addresses, values and '
                           'the whole machine state symbolic; packed-byte helpers at w >= 16 (read byte, write byte, read word)', 'widths': [8, 16, 32, 64],
                           'screen': 'screens up to 2x2, palettes up to 2 entries, streams: init+set_palette+update_screen, init+update_rectangle '
-                                    '(any x,y,w,h incl. a 16-bit x), init+raw frame (attached / not attached), unknown command, update before init; '
+                                    '(any x,y,w,h incl. a 16-bit x), init+raw frame (attached / not attached), init+raw+init+raw with two symbolic sizes, unknown command, '
+                                    'update before init; '
                                     'w in {16, 64}',
                           'native': 'see the native harness entries (Memory_get_word / Memory_set_word / mem_read_word in flat, hybrid, paged)'})
     report.outside += ['sequences of more than one device write', 'device writes outside every segment (engines may differ there; the property '
@@ -534,13 +568,13 @@ def run(report: Report, tier: str, only: Optional[str] = None) -> None:
         if w >= 16:
             jobs.append(('dev', (w, 'none', 'bytes')))
     for w in ((16, 64) if tier == 'quick' else (16, 32, 64)):
-        for scen in ('init-palette-update', 'rectangle', 'raw', 'raw-unattached', 'unknown-command', 'not-initialized'):
+        for scen in ('init-palette-update', 'rectangle', 'raw', 'raw-unattached', 'reinit-raw', 'unknown-command', 'not-initialized'):
             jobs.append(('screen', (w, scen)))
     if only:
         jobs = [j for j in jobs if only in (f'py/{j[1][1]}/w{j[1][0]}/{j[1][2]}' if j[0] == 'dev' else f'screen/w{j[1][0]}/{j[1][1]}')]
     (report.require_witnesses if not only else (lambda *a: None))('dev:read-back-of-the-written-word', 'dev:write-into-a-lazy-zero-word', 'dev:read-back-of-the-written-byte',
                              'dev:op-reads-the-word-the-device-wrote', 'dev:device-reads-the-word-the-op-flipped', 'screen:frame-presented',
-                             'screen:rectangle-presented', 'screen:raw-frame-presented', 'screen:device-error')
+                             'screen:rectangle-presented', 'screen:raw-frame-presented', 'screen:device-error', 'screen:reinit')
     common.run_pool(_job, jobs, report)
     from fjv.llsx import c19_native
     c19_native.run(report, tier, only)
